@@ -170,10 +170,10 @@ func funcSig(ft *ast.FuncType) string {
 }
 
 type dataPkg struct {
-	methods  map[string][]method        // receiver type → methods
-	decls    map[string]*ast.FuncDecl   // "Type.Method" → decl
-	embeds   map[string][]string        // struct type → embedded type names (without *)
-	ifaces   map[string]*ast.InterfaceType
+	methods map[string][]method      // receiver type → methods
+	decls   map[string]*ast.FuncDecl // "Type.Method" → decl
+	embeds  map[string][]string      // struct type → embedded type names (without *)
+	ifaces  map[string]*ast.InterfaceType
 }
 
 func loadData(repo string) *dataPkg {
